@@ -2,16 +2,17 @@
 import hashlib
 import hmac as hmac_mod
 import itertools
+import re
 import os
 import shutil
 import tempfile
 
 from harness import common
-from harness.common import Result
+from harness.common import Result, hexs
 
 PROP = 'C04'
-LEAN_TARGETS = ['TxV.Props.C04', 'TxV.Props.SourceTie']
-PROP_MODULES = ['TxV.Props.C04', 'TxV.Props.SourceTie']
+LEAN_TARGETS = ['TxV.Props.C04', 'TxV.Props.SourceTie', 'TxV.Props.C04b']
+PROP_MODULES = ['TxV.Props.C04', 'TxV.Props.SourceTie', 'TxV.Props.C04b']
 AUDIT = 'Audit/C04.lean'
 
 
@@ -29,7 +30,7 @@ RULE = ('advertised method lists: every ordered subset of {SAFECOOKIE, COOKIE, H
         'against the real protocol with real cookie files and real HMAC-SHA256; quick samples the product, thorough enumerates it. '
         'non-trivial = the exchange goes beyond PROTOCOLINFO; distinct = distinct cells')
 TRUSTED = ["HMAC-SHA256 is an uninterpreted function in the theorems; the driver instantiates it with the two digests the harness computed with hashlib",
-           "os.urandom is pinned per case, to a value that differs from case to case (all cases of a run share one process, as the connections of an application do); regex COOKIEFILE extraction and unescape_quoted_string are exercised through real paths but not modelled"]
+           "os.urandom is pinned per case, to a value that differs from case to case (all cases of a run share one process, as the connections of an application do); the regex that cuts the COOKIEFILE word out of the reply is exercised through real paths but not modelled; unescape_quoted_string is modelled (TxV.Unescape: the two regular expressions as the code has them, Python's unicode-escape codec for ASCII without \\u \\U \\N) and compared with the function itself on every text of up to 4 (quick) / 6 (thorough) characters over a critical alphabet and on every ASCII character escaped Tor's way"]
 ASSUMPTIONS = ["the server's PROTOCOLINFO reply is well-formed (one AUTH line)"]
 
 S2C = b"Tor safe cookie authentication server-to-controller hash"
@@ -265,6 +266,8 @@ def corpus():
 
 
 def gen_cases(rng, tier):
+    for c in unesc_cases(rng, tier):
+        yield c
     mls = all_method_lists()
     scripts = list(scripts_for())
     if tier == 'thorough':
@@ -285,6 +288,23 @@ def gen_cases(rng, tier):
             for ck in ('nofile', 'ioerror', 'len31'):
                 for ld in (True, False):
                     yield {'methods': ms, 'cookie': ck, 'pw': 'deferred-late', 'script': ['ok'] * 8, 'late_disc': ld}
+
+
+def unesc_cases(rng, tier):
+    n = 4 if tier == 'quick' else 6
+    for ln in range(0, n + 1):
+        for t in itertools.product(UNESC_ALPHA, repeat=ln):
+            body = ''.join(t)
+            yield {'unesc': '"' + body + '"'}
+            if ln <= 2:
+                yield {'unesc': body}
+                yield {'unesc': '"' + body + '"\n'}
+    # what Tor writes for paths: every ASCII character escaped Tor's way, alone and between others
+    for code in range(0, 128):
+        ch = chr(code)
+        esc = {'\\': '\\\\', '"': '\\"', '\n': '\\n', '\r': '\\r', '\t': '\\t'}.get(ch, ch if 32 <= code < 127 else '\\%03o' % code)
+        yield {'unesc': '"' + esc + '"'}
+        yield {'unesc': '"/var/' + esc + esc + 'x' + esc + '"'}
 
 
 def cookie_bytes(ck):
@@ -319,12 +339,40 @@ def driver_line(c):
     return 'run %s %s %s %s %s %s %s' % (m, ck, pw, cn.hex(), s2c, c2s, ' '.join(resps))
 
 
+UNESC_ALPHA = ['\\', '"', 'a', 'n', '0', '7', 'x', '4', ' ', '\n', '\t']
+
+
+def run_unesc(c):
+    """`unescape_quoted_string` on a text (what the COOKIEFILE word goes through)"""
+    import warnings
+    from txtorcon.util import unescape_quoted_string
+    try:
+        with warnings.catch_warnings():
+            warnings.simplefilter('ignore')
+            r = unescape_quoted_string(c['unesc'])
+        return ['some', r.encode('latin-1').hex() if all(ord(ch) < 256 for ch in r) else 'wide']
+    except ValueError:
+        return ['none']          # (UnicodeDecodeError is a ValueError)
+    except Exception as e:
+        return ['exc', type(e).__name__]
+
+
 def run_cases(cases, drv, tier):
     common.quiet_twisted()
-    impls = [run_impl(c) for c in cases]
-    outs = drv.run([driver_line(c) for c in cases]) if drv is not None else None
+    impls = [run_unesc(c) if 'unesc' in c else run_impl(c) for c in cases]
+    outs = drv.run([('unesc ' + hexs(c['unesc'])) if 'unesc' in c else driver_line(c) for c in cases]) if drv is not None else None
     res = []
     for k, (c, im) in enumerate(zip(cases, impls)):
+        if 'unesc' in c:
+            # the model of the unescaping (TxV.Unescape; C04_cookiefile_roundtrip) against the function itself; \u \U \N are outside it
+            model = None
+            if outs is not None:
+                o = outs[k].split(' ')
+                model = ['none'] if o[0] == 'none' else ['some', '' if o[1] == '-' else o[1]]
+            inside = not re.search(r'\\[uUN]', c['unesc']) and im != ['some', 'wide']
+            res.append(Result(c, im, model if inside else None, None, in_h=False, nontrivial=len(c['unesc']) > 3,
+                              tags=['unescape', 'quoted' if c['unesc'].startswith('"') else 'raw', 'inside-model' if inside else 'outside-model']))
+            continue
         model = None
         if outs is not None:
             model = outs[k].split(' ') if outs[k] else []
